@@ -20,12 +20,12 @@ deriving instance DecidableEq for State
 
 def isTau : Act → Bool
   | .fcheck | .stopSeen | .put | .unbound | .putEnd | .putExc | .get | .raiseItem | .setStop
-  | .drainCancel | .drainCancelRun | .drainSkip | .drainMark | .drainEmpty | .reap => true
+  | .drainCancel | .drainCancelRun | .drainDetach | .drainSkip | .drainMark | .drainEmpty | .reap => true
   | _ => false
 
 def tauActs : List Act :=
   [.fcheck, .stopSeen, .put, .unbound, .putEnd, .putExc, .get, .raiseItem, .setStop,
-   .drainCancel, .drainCancelRun, .drainSkip, .drainMark, .drainEmpty, .reap]
+   .drainCancel, .drainCancelRun, .drainDetach, .drainSkip, .drainMark, .drainEmpty, .reap]
 
 /-- `stepf` is `AFifo.step` (the model the theorems are about) or `AFifoStale.step` (the pinned,
     defective behaviour: used only to *name* defect F1 when the main model rejects a trace) -/
@@ -41,7 +41,7 @@ theorem sysOf_wf (stepf : Cfg → State → Act → Option State) (c : Cfg) : WF
   constructor
   · intro s a ha
     simp only [sysOf, tauActs, List.mem_cons, List.not_mem_nil, or_false] at ha
-    rcases ha with h | h | h | h | h | h | h | h | h | h | h | h | h | h | h <;> subst h <;> rfl
+    rcases ha with h | h | h | h | h | h | h | h | h | h | h | h | h | h | h | h <;> subst h <;> rfl
   · intro s e a ha
     simp only [sysOf] at ha ⊢
     split at ha
